@@ -381,10 +381,16 @@ Proof.
 Qed.
 Theorem verify_report_not_signed nochain : rpm_verify_report [] nochain = Ok None.
 Proof. reflexivity. Qed.
-Theorem nevra_panics_without_name : rpm_nevra None = Panic 1.
-Proof. reflexivity. Qed.
-Theorem nevra_total_with_name s : 4 <= zlen s -> exists r, rpm_nevra (Some s) = Ok r /\ zlen r = zlen s - 4.
+Theorem nevra_spec n : (forall e, rpm_nevra n <> Panic e) /\ rpm_nevra None = Ok [] /\ (forall p, rpm_nevra (Some p) = Ok p).
 Proof.
-  intros H. unfold rpm_nevra, rpm_nevra_cut. replace (zlen s - 4 <? 0) with false by lia.
-  eexists. split; [reflexivity|]. apply zlen_ztake. lia.
+  assert (K : forall p, rpm_nevra (Some p) = Ok p).
+  { intros p. unfold rpm_nevra. change (rpm_nevra_gives_up false) with false. change rpmu_nevra_ends_in_dot_rpm with true. cbv iota.
+    unfold rpm_nevra_cut. rewrite zlen_app. change (zlen DOT_RPM) with 4. pose proof (zlen_nonneg p).
+    replace (zlen p + 4 - 4 <? 0) with false by lia. replace (zlen p + 4 - 4) with (zlen p) by lia.
+    rewrite ztake_app_l by lia. rewrite ztake_all by lia. reflexivity. }
+  split; [|split; [reflexivity|exact K]].
+  intros e. destruct n as [p|]; [rewrite K|]; discriminate.
 Qed.
+(* the /sign endpoint: a module that is missing or cannot sign is refused, never called *)
+Theorem srv_dispatch_spec me cs : (forall e, srv_sign_dispatch me cs <> Panic e) /\ srv_sign_dispatch me cs = Ok (me && cs).
+Proof. destruct me, cs; split; try discriminate; reflexivity. Qed.
